@@ -349,7 +349,21 @@ impl crate::traits::Transaction for SqliteStore {
             tx_ref.is_none(),
             "can't have an already existing transaction after an just-acquired permit"
         );
-        let tx = self.pool.begin().await?;
+
+        // `Pool::begin` must not be cancelled half-way: if its future is dropped while the pool
+        // tests the connection it just checked out, sqlx closes that connection, and closing the
+        // only connection of an in-memory database destroys all data in it. We run the call to
+        // completion in a task of its own. If this future gets dropped in the meantime, the
+        // fresh transaction is rolled back and the connection is returned to the pool.
+        let pool = self.pool.clone();
+        let tx = match tokio::spawn(async move { pool.begin().await }).await {
+            Ok(result) => result?,
+            Err(err) => match err.try_into_panic() {
+                Ok(panic) => std::panic::resume_unwind(panic),
+                // The runtime is shutting down.
+                Err(_) => return Err(SqliteError::Sqlite(sqlx::Error::PoolClosed)),
+            },
+        };
         tx_ref.replace(tx);
 
         // Verification hook: linearisation point of `begin`, under the held permit.
